@@ -45,7 +45,7 @@ def gen_c11(rng, full: bool, ticking: bool = False) -> Dict[str, Any]:
             steps.append({"kind": "wall_jump", "s": rng.choice([-86400, -3600, -1, 1, 3600, 86400, 86400 * 30, 86400 * 183])})
         elif r < 0.8:
             steps.append({"kind": "sleep", "s": rng.choice([1, 59, 60, 3600, 86400])})
-    return {"engine": "clock", "config": {"tz": tz, "epoch0": epoch0, "sched": 0}, "steps": uidify(steps)}
+    return {"engine": "clock", "config": clock_config(rng, tz, epoch0), "steps": uidify(steps)}
 
 
 def near_midnight(rng, tz: str, epoch0: float, tick_ns: int) -> float:
@@ -54,6 +54,18 @@ def near_midnight(rng, tz: str, epoch0: float, tick_ns: int) -> float:
     d = localtime.local_dt(tz, epoch0)
     nxt = (d + dt.timedelta(days=1)).replace(hour=0, minute=0, second=0, microsecond=0)
     return nxt.timestamp() - rng.choice([0.5, 1, 1.5, 2, 2.5, 3.5, 6]) * tick_ns / 1e9
+
+
+def clock_config(rng, tz, epoch0):
+    import os
+    cfg = {"tz": tz, "epoch0": epoch0, "sched": 0}
+    if os.path.exists("/usr/share/zoneinfo/" + tz):
+        r = rng.random()
+        if r < 0.15:
+            cfg["tz_form"] = "colon"        # TZ=":Europe/Paris" means the same to libc
+        elif r < 0.25:
+            cfg["tz_form"] = "path"         # TZ=":/usr/share/zoneinfo/Europe/Paris"
+    return cfg
 
 
 def gen_c13(rng, ticking: bool = False) -> Dict[str, Any]:
@@ -94,4 +106,4 @@ def gen_c13(rng, ticking: bool = False) -> Dict[str, Any]:
             d2 = localtime.local_dt(tz, epoch0)   # (now_m is only a bias; exactness is the oracle's job)
         elif r < 0.25:
             steps.append({"kind": "wall_jump", "s": rng.choice([-86400 * 3, -86400, -3600, 3600, 86400, 86400 * 2, 86400 * 5])})
-    return {"engine": "clock", "config": {"tz": tz, "epoch0": epoch0, "sched": 0}, "steps": uidify(steps)}
+    return {"engine": "clock", "config": clock_config(rng, tz, epoch0), "steps": uidify(steps)}
